@@ -476,17 +476,18 @@ def _worker_init(repo):
     got = str(Path(fairlearn.__file__).resolve())
     if not got.startswith(repo):
         raise RuntimeError(f"fairlearn imported from {got}, expected under {repo}")
-    try:
-        import torch
-        torch.set_num_threads(1)
-    except Exception:
-        pass
 
 
 def _worker_run(args):
     modname, fname, case, tmo = args
     mod = importlib.import_module(modname)
     fn = getattr(mod, fname)
+    if "torch" in sys.modules and not getattr(_worker_run, "_torch1", False):
+        try:
+            sys.modules["torch"].set_num_threads(1)
+            _worker_run._torch1 = True
+        except Exception:
+            pass
     signal.signal(signal.SIGALRM, _alarm)
     signal.alarm(tmo)
     try:
